@@ -56,6 +56,7 @@ LeafVal == [
   kilo  |-> Fin(R(1000), D1),           \* symplyphysics prefix (a plain number)
   milli |-> Fin(<<1, 1000>>, D1),
   pkilo |-> Fin(R(1000), D1),           \* sympy.physics.units Prefix object
+  pkibi |-> Fin(R(1024), D1),           \* binary Prefix object: base 2, exponent 10
   q2m   |-> Fin(R(2), L1),              \* previously built Quantity(2 * meter)
   q4m2  |-> Fin(R(4), DPow(L1, R(2))),  \* previously built Quantity(4 * meter**2)
   q0    |-> Zero,                       \* previously built Quantity(0)
